@@ -179,25 +179,33 @@ Definition check_get_by_time (a : alog) (times : bool) (t : Z) (o : obs msg) : b
 
 (* ---------- C12: delete *)
 
-Definition sum_sizes (overhead isz : Z) (ms : list msg) : Z :=
-  fold_right (fun m acc => overhead + zlen (mkey m) + zlen (mval m) + isz + acc) 0 ms.
+Definition overhead (v : ver) : Z := match v with V1 => 28 | V2 => 36 end.
 
-(* v1ok / v2ok: which record formats the directory may contain *)
-Definition check_delete (a : alog) (isz : Z) (v1ok v2ok : bool) (offs : list Z)
-           (o : obs (Z * list msg)) : bool :=
+(* storage size of the deleted messages: record size in the format of the segment that held
+   each one (vs, reported by the harness from the file headers) plus one index item each *)
+Fixpoint sum_sizes (isz : Z) (ms : list msg) (vs : list ver) : option Z :=
+  match ms, vs with
+  | [], [] => Some 0
+  | m :: r, v :: vr =>
+    match sum_sizes isz r vr with
+    | Some acc => Some (overhead v + zlen (mkey m) + zlen (mval m) + isz + acc)
+    | None => None
+    end
+  | _, _ => None
+  end.
+
+Definition check_delete (a : alog) (isz : Z) (offs : list Z)
+           (o : obs (Z * list ver * list msg)) : bool :=
   match offs with
-  | [] => match o with OOk (sz, []) => sz =? 0 | _ => false end
+  | [] => match o with OOk (sz, _, []) => sz =? 0 | _ => false end
   | _ =>
     if zmin_list offs <? 0 then is_err o CInvalidOffset
     else match o with
          | OErr c => eclass_eqb c CNotFound || eclass_eqb c CInvalidOffset
-         | OOk (sz, ms) =>
+         | OOk (sz, vs, ms) =>
            forallb (fun m => mem_msg m (live a) && zmem (moff m) offs) ms
            && nodup_offs ms
-           && (let lo := sum_sizes 28 isz ms in
-               let hi := sum_sizes 36 isz ms in
-               ((v1ok && (sz =? lo)) || (v2ok && (sz =? hi))
-                || (v1ok && v2ok && (lo <=? sz) && (sz <=? hi) && ((sz - lo) mod 8 =? 0))))
+           && (match sum_sizes isz ms vs with Some want => sz =? want | None => false end)
          end
   end.
 
@@ -205,18 +213,18 @@ Definition spec_delete (a : alog) (deleted : list msg) : alog :=
   mkAlog (remove_msgs (live a) deleted) (anext a).
 
 (* DeleteMulti over a set of live offsets removes all of them *)
-Definition check_delete_multi (a : alog) (isz : Z) (v1ok v2ok : bool) (offs : list Z)
-           (o : obs (Z * list msg)) : bool :=
+Definition check_delete_multi (a : alog) (isz : Z) (offs : list Z)
+           (o : obs (Z * list ver * list msg)) : bool :=
   match offs with
-  | [] => match o with OOk (sz, []) => sz =? 0 | _ => false end
+  | [] => match o with OOk (sz, _, []) => sz =? 0 | _ => false end
   | _ =>
     if zmin_list offs <? 0 then is_err o CInvalidOffset
     else
       let all_live := forallb (fun x => existsb (fun m => moff m =? x) (live a)) offs in
       match o with
       | OErr c => negb all_live
-      | OOk (sz, ms) =>
-        check_delete a isz v1ok v2ok offs o
+      | OOk (sz, vs, ms) =>
+        check_delete a isz offs o
         && (negb all_live || forallb (fun x => existsb (fun m => moff m =? x) ms) offs)
       end
   end.
